@@ -41,6 +41,15 @@ static inline void *gv_new(size_t bytes)
   return p;
 }
 
+/* assumed contract of libm sqrt (trusted base): defined for x >= 0, non-negative, positive for positive x */
+static inline double gv_sqrt(double x)
+{
+  __CPROVER_assert(x >= 0, "sqrt argument is non-negative");
+  double r;
+  __CPROVER_assume(r >= 0 && (x > 0 ? r > 0 : r == 0));
+  return r;
+}
+
 #define GV_EPS DBL_EPSILON
 #define nullptr NULL
 
